@@ -109,11 +109,11 @@ func (p *PeerSpec) beh(h int64) BehAt {
 }
 
 // classOf fixes the class of every case index (fixed-length lists per tier).
-var classPattern = []string{"control", "tip", "quorum", "mixed", "nilfork", "replica", "inflated", "leftover", "tip", "gap",
-	"control", "quorum", "replica", "inflated", "nilfork", "second", "gap", "mixed", "leftover", "second"}
+var classPattern = []string{"control", "tip", "quorum", "signed", "nilfork", "replica", "inflated", "leftover", "tip", "gap",
+	"attip", "quorum", "replica", "inflated", "nilfork", "second", "gap", "mixed", "leftover", "second"}
 
 // the quick tier's v1 / v2 cases
-var otherVersionsPattern = []string{"quorum", "second", "replica", "gap", "second", "nilfork", "tip", "replica", "quorum", "leftover"}
+var otherVersionsPattern = []string{"quorum", "second", "replica", "gap", "signed", "nilfork", "tip", "replica", "attip", "leftover"}
 
 // The deciding target is v0.  The same peers also drive v1 and v2: a few cases of the boundary /
 // second-block / fork classes in the quick tier, the whole pattern in the thorough tier.
@@ -886,6 +886,34 @@ func genScenario(c *verdict.Ctx, idx int) (*Scenario, *world) {
 		if sc.NodeStart >= g-1 {
 			sc.NodeStart = 0
 		}
+	case "attip":
+		// The node is already AT the tip of its peers (or one block short, which block sync cannot
+		// close): nothing to sync.  The hand-over must then ask consensus to catch up from its WAL.
+		sc.NodeStart = T - int64(r.Intn(2))
+		for i, nh := 0, 1+r.Intn(3); i < nh; i++ {
+			sc.Peers = append(sc.Peers, honest(fmt.Sprintf("h%d", i), T))
+		}
+	case "signed":
+		// Liars that hold the validators' keys: for a height g they serve a block that differs from the
+		// canonical one in a header field the node's state prescribes (so it is INVALID for that state),
+		// with or without evidence in it, and a block g+1 whose LastCommit is a genuine commit for it,
+		// signed by the full set or by exactly a quorum.  The commit verifies; full validation must
+		// still keep the block out of the store, the sender is dropped, the height fetched again.
+		lo := w.first
+		if sc.NodeStart > 0 {
+			lo = sc.NodeStart + 1
+		}
+		g := lo + 1 + r.Int63n(T-2-lo)
+		sc.Peers = append(sc.Peers, honest("hA", g-1))
+		ops := []string{"apphash", "resultshash", "consensushash", "time", "valhash", "nextvalhash", "proposer", "lastblockid", "appversion"}
+		b := BehAt{H: g, Kind: "signedInvalid", Op: ops[r.Intn(len(ops))], Arg: int64(boolInt(r.Intn(3) == 0)), Slot: r.Intn(2)} // Arg: 1 = with evidence; Slot: 1 = exactly a quorum signs
+		sc.Peers = append(sc.Peers, PeerSpec{Name: "liarK", Base: w.first, Height: g + 1 + r.Int63n(T-g), Beh: []BehAt{b, {H: g + 1, Kind: "signedCarrier", Op: b.Op, Arg: b.Arg, Slot: b.Slot}}})
+		full := honest("hB", T)
+		full.Late, full.LateAfter = true, 1
+		if sc.Version != "v0" {
+			full.Late = false // v1 / v2 finish when a failed pair leaves them without taller peers
+		}
+		sc.Peers = append(sc.Peers, full)
 	case "leftover":
 		// A liar, at first the only peer, delivers non-canonical blocks for heights well AHEAD of the pool
 		// height (out of order: those answers come first), and is then removed for another reason before
@@ -1059,7 +1087,7 @@ func genScenario(c *verdict.Ctx, idx int) (*Scenario, *world) {
 		sc.Timeouts = sc.Class == "timeout"
 	}
 	// the node never starts above what it can learn from the peers
-	if sc.NodeStart > 0 && sc.NodeStart > T-3 {
+	if sc.NodeStart > 0 && sc.NodeStart > T-3 && sc.Class != "attip" {
 		sc.NodeStart = 0
 	}
 	// shuffle the connection order
